@@ -30,6 +30,10 @@ def variants(ctx, tag):
     cenv = {"USCXML_NOCACHE_FILES": "", "TMPDIR": cache, "TMP": cache, "TEMP": cache}
     return [("aslr-1", [], base), ("aslr-2", [], base), ("no-aslr", ["setarch", "x86_64", "-R"], base),
             ("heap-1", [], dict(base, UV_HEAP_PERTURB="1")), ("heap-2", [], dict(base, UV_HEAP_PERTURB=str(7 + ctx.seed))),
+            # glibc serves blocks above the threshold from mmap, at descending instead of ascending addresses: the blocks
+            # of a large document's DOM heap then lie in a different relative order
+            ("mmap-4k", [], dict(base, MALLOC_MMAP_THRESHOLD_="4096")), ("mmap-24k", [], dict(base, MALLOC_MMAP_THRESHOLD_="24576")),
+            ("mmap-4k-arena1", [], dict(base, MALLOC_MMAP_THRESHOLD_="4096", MALLOC_ARENA_MAX="1")),
             ("cache-cold", [], cenv), ("cache-warm", [], cenv)], cache
 
 
@@ -65,6 +69,22 @@ def nested_doc(rng, dm):
     return parent[:k] + inv + parent[k:]
 
 
+def big_doc(rng, dm):
+    """a document large enough for its DOM to spread over several heap blocks: many <data>/<assign> with inline content
+    (promela) or a long ring of states with handlers (null)"""
+    H = '<scxml xmlns="http://www.w3.org/2005/07/scxml" version="1.0" datamodel="%s" initial="s0">' % dm
+    if dm == "promela":
+        nd, ns = rng.randint(100, 220), rng.randint(20, 60)
+        data = "".join('<data id="item%d" type="int">\'label.%03d\'</data>' % (i, i) for i in range(nd))
+        states = "".join('<state id="s%d"><onentry><assign location="item%d">\'moved.%03d\'</assign></onentry><transition event="e%d" target="s%d"/></state>'
+                         % (i, rng.randrange(nd), i, i % 7, (i + 1) % ns) for i in range(ns))
+        return H + "<datamodel>" + data + "</datamodel>" + states + "</scxml>"
+    ns = rng.randint(30, 50)          # the C and VHDL back-ends take minutes on a few hundred transitions
+    states = "".join('<state id="s%d"><onentry><raise event="r%d"/><log label="L%d"/></onentry><transition event="e%d r%d" target="s%d"/><transition event="x.%d" target="s%d"/></state>'
+                     % (i, i % 11, i, i % 7, (i + 3) % 11, (i + 1) % ns, i % 5, (i * 7) % ns) for i in range(ns))
+    return H + states + "</scxml>"
+
+
 def suite_interp(ctx, n):
     rng = ctx.rng
     cases = E.gen_cases(rng, n, p_fail=0.1)
@@ -93,8 +113,10 @@ def suite_emit(ctx, n):
     rng = ctx.rng
     docs = []
     for i in range(n):
-        fam = ("plain", "promela", "nested", "nested-promela")[i % 4]
-        if fam == "plain":
+        fam = ("plain", "promela", "nested", "nested-promela", "big-promela", "big-plain")[i % 6]
+        if fam == "big-promela": docs.append((fam, big_doc(rng, "promela"), ["c", "promela"]))
+        elif fam == "big-plain": docs.append((fam, big_doc(rng, "null"), ["c", "vhdl"]))
+        elif fam == "plain":
             g = charts.Gen(rng, max_states=rng.choice([3, 6, 10]), p_fail=0.05); docs.append((fam, charts.xml(g.chart()), ["c", "vhdl"]))
         elif fam == "promela":
             g = charts.Gen(rng, max_states=rng.choice([3, 6, 10]), p_fail=0.0, dm="promela", nvars=2); docs.append((fam, charts.xml(g.chart(), "promela", 2), ["c", "promela"]))
@@ -142,13 +164,13 @@ def run(ctx):
     ctx.setup(variants=("plain",))
     ctx.audit(THEOREMS, LEAN_FILES)
     quick = ctx.tier == "quick"
-    suite_interp(ctx, 250 if quick else 8000)
-    suite_emit(ctx, 80 if quick else 2500)
+    suite_interp(ctx, 150 if quick else 8000)
+    suite_emit(ctx, 66 if quick else 2500)
     s1, s2 = ctx.coverage["suites"]["interp"], ctx.coverage["suites"]["emit"]
-    ctx.coverage["evaluations"] = (s1["inputs"] + s2["inputs"]) * 7
+    ctx.coverage["evaluations"] = (s1["inputs"] + s2["inputs"]) * s2["process_instances"]
     ctx.coverage["distinct_nontrivial"] = s2["emitted"]
     ctx.coverage["rule"] = ("random charts x events interpreted by both engines, and documents of four families (plain, promela datamodel, parents with 2-4 invoked inline machines some of them identical, "
-                            "the same with promela) transpiled by every applicable back-end, each in 7 process instances: two with address-space randomisation, one without, two with perturbed heap layouts, cache files cold and warm; "
+                            "the same with promela) transpiled by every applicable back-end, plus documents of several hundred elements (their DOM spreads over several heap blocks), each in 10 process instances: two with address-space randomisation, one without, two with perturbed heap layouts, three in which malloc serves large blocks from mmap (descending addresses), cache files cold and warm; "
                             "non-trivial = documents for which a back-end emitted text")
     ctx.assumptions += ["'different memory layouts' are those the kernel's randomisation produced in these runs plus the fixed layout of setarch -R",
                         "no Lean model of the emitted bytes exists: for the transpilers this check is a comparison of runs, not a proof"]
